@@ -54,9 +54,11 @@ fn cfg_text(c: &Cfg) -> String { format!("{} shard(s), ConnectionConfig{{read_bu
 
 struct Server { client: DuplexStream, task: JoinHandle<()>, inbuf: Vec<u8> }
 
-fn start(cfg: &Cfg) -> Server {
+fn start(cfg: &Cfg) -> Server { start_on(cfg, ShardedActorState::with_shards(cfg.shards)) }
+
+/// a connection on an existing (shared) store
+fn start_on(cfg: &Cfg, state: ShardedActorState) -> Server {
     let (client, server) = tokio::io::duplex(1 << 20);
-    let state = ShardedActorState::with_shards(cfg.shards);
     let cc = ConnectionConfig { max_buffer_size: 64 * 1024 * 1024, read_buffer_size: cfg.read_buffer_size, min_pipeline_buffer: cfg.min_pipeline_buffer, batch_threshold: cfg.batch_threshold };
     let task = tokio::task::spawn_local(async move { verif_serve_connection(server, state, cc).await });
     Server { client, task, inbuf: Vec::new() }
@@ -255,11 +257,136 @@ async fn check_garbage(which: &str) -> Option<Found> {
     None
 }
 
+
+/// single-frame variant of the same garbage (try_fast_get / try_fast_set, assert#2): ONE frame alone in a write, below
+/// min_pipeline_buffer, so it reaches the single-command fast path instead of the batch collectors
+async fn check_garbage_single(which: &str) -> Option<Found> {
+    let cfg = Cfg { shards: 1, read_buffer_size: 8192, min_pipeline_buffer: 60, batch_threshold: 2 };
+    let mut cases: Vec<(&str, Vec<u8>, Vec<u8>, Vec<u8>)> = Vec::new();
+    if which != "set" { cases.push(("try_fast_get", c(&["SET", "a", "1"]), b"*2\r\n$3\r\nGET\r\nX$1\rYaZZ".to_vec(), c(&["GET", "a"]))); }
+    if which != "get" { cases.push(("try_fast_set", c(&["GET", "k"]), b"*3\r\n$3\r\nSET\r\nX$1\rYkZZ$1\rYvZZ".to_vec(), c(&["GET", "k"]))); }
+    for (what, setup, garbage, probe) in cases {
+        let mut s = start(&cfg);
+        if s.client.write_all(&setup).await.is_err() { continue; }
+        let first = s.read_replies(1).await.ok();
+        if s.client.write_all(&garbage).await.is_err() { continue; }
+        let ctx = format!("{}; after {} (reply {}), ONE write of {} bytes (below min_pipeline_buffer) that is not a RESP frame: {}", cfg_text(&cfg), show(&setup), first.as_ref().map(|r| show(&r[0])).unwrap_or_default(), garbage.len(), show(&garbage));
+        let got = s.read_replies(1).await;
+        match got {
+            Ok(r) if r[0].first() == Some(&b'-') => {}
+            Err(e) if e.starts_with("connection closed") => {}
+            Ok(r) => { let _ = s.client.write_all(&probe).await; let after = s.read_replies(1).await.ok().map(|r| show(&r[0])); return Some(Found { input: ctx, observed: format!("{} executes the garbage as a command: reply {}; a following {} replies {:?}", what, show(&r[0]), show(&probe), after), required: "a protocol error reply (or a close): bytes that are not a well-formed frame are never executed as a command".into() }); }
+            Err(e) => return Some(Found { input: ctx, observed: format!("{}: {}", what, e), required: "a protocol error reply (or a close)".into() }),
+        }
+    }
+    None
+}
+
+
+// ======================= conn_txn (C05 / C04): connection-level MULTI / EXEC / DISCARD / WATCH, two connections on one store =======================
+#[derive(Clone)]
+enum Exp { Exact(&'static [u8]), Bytes(Vec<u8>), Error, Nil }
+fn exp_text(e: &Exp) -> String { match e { Exp::Exact(b) => show(b), Exp::Bytes(b) => show(b), Exp::Error => "an error reply".into(), Exp::Nil => "nil ($-1 or *-1)".into() } }
+fn exp_ok(e: &Exp, got: &[u8]) -> bool { match e { Exp::Exact(b) => got == *b, Exp::Bytes(b) => got == &b[..], Exp::Error => got.first() == Some(&b'-'), Exp::Nil => got == b"$-1\r\n" || got == b"*-1\r\n" } }
+
+fn txn_scripts() -> Vec<(&'static str, Vec<(usize, Vec<u8>, Exp)>)> {
+    let ok = Exp::Exact(b"+OK\r\n"); let q = Exp::Exact(b"+QUEUED\r\n");
+    let mut v: Vec<(&'static str, Vec<(usize, Vec<u8>, Exp)>)> = Vec::new();
+    // WATCH of every value type, changed by the OTHER connection before EXEC -> nil, nothing applied
+    for (name, create, change) in [
+        ("list", c(&["RPUSH", "w", "a"]), c(&["RPUSH", "w", "b"])), ("string", c(&["SET", "w", "1"]), c(&["SET", "w", "2"])), ("hash", c(&["HSET", "w", "f", "v"]), c(&["HSET", "w", "f", "v2"])),
+        ("set", c(&["SADD", "w", "m"]), c(&["SADD", "w", "n"])), ("zset", c(&["ZADD", "w", "1", "m"]), c(&["ZADD", "w", "2", "m"])), ("list shrinking", c(&["RPUSH", "w", "a", "b"]), c(&["LPOP", "w"])),
+        ("key deleted", c(&["SET", "w", "1"]), c(&["DEL", "w"])), ("absent key created", c(&["PING"]), c(&["RPUSH", "w", "x"])), ("type changed", c(&["SET", "w", "1"]), c(&["DEL", "w"])),
+    ] {
+        let label: &'static str = Box::leak(format!("WATCH on a {} changed by another connection", name).into_boxed_str());
+        let mut st = vec![(0usize, create.clone(), Exp::Bytes(Vec::new())), (0, c(&["WATCH", "w"]), ok.clone()), (1, change.clone(), Exp::Bytes(Vec::new()))];
+        if name == "type changed" { st.push((1, c(&["RPUSH", "w", "1"]), Exp::Bytes(Vec::new()))); }
+        st.extend(vec![(0, c(&["MULTI"]), ok.clone()), (0, c(&["SET", "x", "1"]), q.clone()), (0, c(&["EXEC"]), Exp::Nil), (1, c(&["GET", "x"]), Exp::Exact(b"$-1\r\n")), (0, c(&["GET", "x"]), Exp::Exact(b"$-1\r\n")),
+            // the watch is gone after EXEC: the next transaction applies
+            (0, c(&["MULTI"]), ok.clone()), (0, c(&["SET", "x", "2"]), q.clone()), (0, c(&["EXEC"]), Exp::Exact(b"*1\r\n+OK\r\n")), (1, c(&["GET", "x"]), Exp::Exact(b"$1\r\n2\r\n"))]);
+        v.push((label, st));
+        // control: the other connection touches ANOTHER key -> EXEC applies
+        let label2: &'static str = Box::leak(format!("WATCH on a {} not changed (another key is written)", name).into_boxed_str());
+        v.push((label2, vec![(0, create, Exp::Bytes(Vec::new())), (0, c(&["WATCH", "w"]), ok.clone()), (1, c(&["SET", "other", "1"]), ok.clone()), (0, c(&["MULTI"]), ok.clone()), (0, c(&["SET", "x", "1"]), q.clone()), (0, c(&["EXEC"]), Exp::Exact(b"*1\r\n+OK\r\n")), (1, c(&["GET", "x"]), Exp::Exact(b"$1\r\n1\r\n"))]));
+    }
+    v.push(("queued commands are invisible to the other connection until EXEC; results in order", vec![
+        (0, c(&["MULTI"]), ok.clone()), (0, c(&["SET", "q", "abc"]), q.clone()), (0, c(&["INCR", "q"]), q.clone()), (0, c(&["GET", "q"]), q.clone()), (0, c(&["RPUSH", "ql", "1", "2"]), q.clone()),
+        (1, c(&["GET", "q"]), Exp::Exact(b"$-1\r\n")), (1, c(&["EXISTS", "ql"]), Exp::Exact(b":0\r\n")),
+        (0, c(&["EXEC"]), Exp::Exact(b"*4\r\n+OK\r\n-ERR value is not an integer or out of range\r\n$3\r\nabc\r\n:2\r\n")), (1, c(&["GET", "q"]), Exp::Exact(b"$3\r\nabc\r\n")), (1, c(&["LLEN", "ql"]), Exp::Exact(b":2\r\n"))]));
+    v.push(("DISCARD, UNWATCH, state-machine errors", vec![
+        (0, c(&["EXEC"]), Exp::Error), (0, c(&["DISCARD"]), Exp::Error), (0, c(&["SET", "a", "1"]), ok.clone()), (0, c(&["WATCH", "a"]), ok.clone()), (0, c(&["MULTI"]), ok.clone()), (0, c(&["MULTI"]), Exp::Error), (0, c(&["WATCH", "a"]), Exp::Error),
+        (0, c(&["SET", "a", "2"]), q.clone()), (0, c(&["DISCARD"]), ok.clone()), (0, c(&["GET", "a"]), Exp::Exact(b"$1\r\n1\r\n")), (0, c(&["EXEC"]), Exp::Error),
+        (0, c(&["WATCH", "a"]), ok.clone()), (1, c(&["SET", "a", "9"]), ok.clone()), (0, c(&["UNWATCH"]), ok.clone()), (0, c(&["MULTI"]), ok.clone()), (0, c(&["INCR", "a"]), q.clone()), (0, c(&["EXEC"]), Exp::Exact(b"*1\r\n:10\r\n")),
+        (0, c(&["MULTI"]), ok.clone()), (0, c(&["EXEC"]), Exp::Exact(b"*0\r\n")), (1, c(&["MULTI"]), ok.clone()), (0, c(&["SET", "a", "0"]), ok.clone()), (1, c(&["INCR", "a"]), q.clone()), (1, c(&["EXEC"]), Exp::Exact(b"*1\r\n:1\r\n"))]));
+    v.push(("two interleaved transactions on two connections", vec![
+        (0, c(&["MULTI"]), ok.clone()), (1, c(&["MULTI"]), ok.clone()), (0, c(&["RPUSH", "t", "c0"]), q.clone()), (1, c(&["RPUSH", "t", "c1"]), q.clone()), (1, c(&["EXEC"]), Exp::Exact(b"*1\r\n:1\r\n")), (0, c(&["EXEC"]), Exp::Exact(b"*1\r\n:2\r\n")),
+        (0, c(&["LRANGE", "t", "0", "-1"]), Exp::Exact(b"*2\r\n$2\r\nc1\r\n$2\r\nc0\r\n"))]));
+    v
+}
+
+async fn check_conn_txn(cfg: &Cfg) -> Option<Found> {
+    for (name, script) in txn_scripts() {
+        let state = ShardedActorState::with_shards(cfg.shards);
+        let mut conns = vec![start_on(cfg, state.clone()), start_on(cfg, state.clone())];
+        let mut hist: Vec<String> = Vec::new();
+        for (ci, bytes, want) in &script {
+            if conns[*ci].client.write_all(bytes).await.is_err() { break; }
+            let got = conns[*ci].read_replies(1).await;
+            let ctx = format!("{}; two connections on one store; scenario '{}': {} ; then connection {} sends {}", cfg_text(cfg), name, hist.join(" ; "), ci, show(bytes));
+            match got {
+                Err(e) => return Some(Found { input: ctx, observed: e, required: format!("exactly one reply: {}", exp_text(want)) }),
+                Ok(r) => {
+                    let free = matches!(want, Exp::Bytes(b) if b.is_empty());
+                    if !free && !exp_ok(want, &r[0]) { return Some(Found { input: ctx, observed: format!("reply {}", show(&r[0])), required: format!("reply {}", exp_text(want)) }); }
+                    hist.push(format!("c{}: {} -> {}", ci, show(bytes), show(&r[0])));
+                }
+            }
+        }
+        // exactly one reply per command: nothing but the PONG of a sentinel is left on either connection
+        for (ci, mut s) in conns.into_iter().enumerate() {
+            let _ = s.client.write_all(b"*1\r\n$4\r\nPING\r\n").await;
+            match s.read_replies(1).await { Ok(r) if r[0] == b"+PONG\r\n" => {} other => return Some(Found { input: format!("{}; scenario '{}': {}; sentinel PING on connection {}", cfg_text(cfg), name, hist.join(" ; "), ci), observed: format!("{:?}", other.map(|r| show(&r[0]))), required: "+PONG (exactly one reply per command, nothing left over)".into() }) }
+            match s.finish().await { Ok(rest) if rest.is_empty() => {} Ok(rest) => return Some(Found { input: format!("{}; scenario '{}': {}", cfg_text(cfg), name, hist.join(" ; ")), observed: format!("surplus output on connection {}: {}", ci, show(&rest)), required: "exactly one reply per command".into() }), Err(e) => return Some(Found { input: format!("{}; scenario '{}'", cfg_text(cfg), name), observed: e, required: "a clean end of the connection".into() }) }
+        }
+    }
+    None
+}
+
+pub fn search_txn(_pid: &str, _oid: &str, seed: u64) -> Option<Found> {
+    let rt = tokio::runtime::Builder::new_current_thread().enable_all().build().ok()?;
+    let local = tokio::task::LocalSet::new();
+    local.block_on(&rt, async move {
+        for cfg in configs().iter().take(2) { if let Some(f) = check_conn_txn(cfg).await { return Some(f); } }
+        // pipelining / fragmentation of whole transactions on one connection: one reply per command inside and outside MULTI
+        let mut rng = Rng::new(seed + 45);
+        let sess: Vec<(String, Vec<Vec<u8>>)> = vec![
+            ("transaction with errors, pipelined".into(), vec![c(&["SET", "a", "abc"]), c(&["MULTI"]), c(&["INCR", "a"]), c(&["GET", "a"]), c(&["RPUSH", "l", "1"]), c(&["EXEC"]), c(&["GET", "a"]), c(&["MULTI"]), c(&["SET", "a", "2"]), c(&["DISCARD"]), c(&["GET", "a"]), c(&["EXEC"]), c(&["MULTI"]), c(&["MULTI"]), c(&["WATCH", "a"]), c(&["EXEC"])]),
+            ("WATCH then own write then transaction, pipelined".into(), vec![c(&["RPUSH", "l", "a"]), c(&["WATCH", "l", "s"]), c(&["RPUSH", "l", "b"]), c(&["MULTI"]), c(&["SET", "x", "1"]), c(&["GET", "x"]), c(&["EXEC"]), c(&["GET", "x"]), c(&["WATCH", "l"]), c(&["UNWATCH"]), c(&["MULTI"]), c(&["LLEN", "l"]), c(&["EXEC"])]),
+            ("fast-path commands inside MULTI".into(), vec![c(&["MULTI"]), c(&["SET", "k", "v"]), c(&["GET", "k"]), c(&["SET", "k", "w"]), c(&["GET", "k"]), c(&["EXEC"]), c(&["GET", "k"]), c(&["GET", "k"]), c(&["GET", "k"])]),
+        ];
+        for (ci, cfg) in configs().iter().enumerate() {
+            for (name, cmds) in &sess {
+                let total: usize = cmds.iter().map(|c| c.len()).sum();
+                let mut cutsets: Vec<Vec<usize>> = vec![vec![]];
+                let stride = if ci == 0 { 1 } else { 7 };
+                let mut p = 1; while p < total { cutsets.push(vec![p]); p += stride; }
+                cutsets.push((1..total).collect());
+                for _ in 0..6 { let k = 2 + rng.below(5); let mut cs: Vec<usize> = (0..k).map(|_| 1 + rng.below(total as u64 - 1) as usize).collect(); cs.sort(); cs.dedup(); cutsets.push(cs); }
+                if let Some(f) = check_session(cfg, name, cmds, &cutsets).await { return Some(f); }
+            }
+        }
+        None
+    })
+}
+
 pub fn search(_pid: &str, oid: &str, seed: u64) -> Option<Found> {
     let rt = tokio::runtime::Builder::new_current_thread().enable_all().build().ok()?;
     let local = tokio::task::LocalSet::new();
     let oid = oid.to_string();
     local.block_on(&rt, async move {
+        if oid.contains("try_fast_get") || oid.contains("try_fast_set") {
+            return check_garbage_single(if oid.contains("try_fast_get") { "get" } else { "set" }).await;
+        }
         if oid.contains("assert#4") {
             let which = if oid.contains("collect_get_keys") { "get" } else if oid.contains("collect_set_pairs") { "set" } else { "both" };
             return check_garbage(which).await;
